@@ -286,6 +286,9 @@ func (c14) Run(c core.Case, w *core.Worker) core.Result {
 					if r.Chance(1, 3) && len(tk) > 1 {
 						tk = tk[:r.Range(1, len(tk)-1)]
 					}
+					if r.Chance(1, 12) {
+						tk = [][]byte{nil, {}, {0}, {0xff, 0xff, 0xff, 0xff, 0xff}}[r.Intn(4)] // the ends of the key space
+					}
 					op.Sub = append(op.Sub, core.Op{Kind: "seek", Key: tk})
 				case c < 6:
 					op.Sub = append(op.Sub, core.Op{Kind: "rewind"})
